@@ -342,6 +342,8 @@ func (h *Hist) runOnce() (res ScanResult) {
 // loop in the code under test, which virtual time cannot see.
 var (
 	InFlightSince atomic.Int64
+	// InFlightCPU is the process CPU time (see CPUNow) when the execution in progress began.
+	InFlightCPU atomic.Int64
 	InFlightDesc  atomic.Value
 )
 
@@ -350,6 +352,7 @@ func wallNow() int64 { return realNow() }
 // Run executes one history under the given chooser. It must be called from inside a test.
 func Run(t *testing.T, s *Scenario, ch *explore.Chooser, after func(h *Hist)) {
 	InFlightDesc.Store(s.Name + " prefix=" + fmt.Sprint(ch.Run().Prefix))
+	InFlightCPU.Store(CPUNow())
 	InFlightSince.Store(wallNow())
 	defer InFlightSince.Store(0)
 	// a scan that hangs (reported as such by the history) leaves its goroutines blocked for ever; the
